@@ -3,7 +3,11 @@
 //! evaluated in double-double arithmetic on the exact values of the float inputs (so the only error
 //! left is the implementation's own rounding, bounded by a first-order analysis of the *definition*,
 //! not of the code), Mahalanobis' closed form is evaluated from the covariance by an independent
-//! Cholesky solve, and the metric axioms are checked on triples.
+//! Cholesky solve, and the metric axioms are checked on triples.  Besides the random families the
+//! search enumerates STRUCTURED inputs (small-integer covariances with exact zeros / cancellations /
+//! equalities, given directly or arising as the sample covariance of designed integer data, judged
+//! also by an exact rational reference; lattice vectors with special shapes for the elementary
+//! distances): a special case taken by mistake only shows on inputs that have the structure.
 use serde_json::{json, Value};
 use smartcore::linalg::naive::dense_matrix::DenseMatrix;
 use smartcore::linalg::BaseMatrix;
@@ -16,6 +20,11 @@ use vharness::*;
 // the rounding allowances have on this run)
 thread_local! {
     static STATS: std::cell::RefCell<std::collections::BTreeMap<String, f64>> = std::cell::RefCell::new(std::collections::BTreeMap::new());
+}
+/// a failing input; the distribution also gets the uncapped number of failures per oracle
+fn vfail(out: &mut Out, oracle: &str, what: &str, input: Value) {
+    out.count(&format!("violations:{}", oracle));
+    out.fail(oracle, what, input);
 }
 fn note(label: &str, ratio: f64) {
     if ratio.is_finite() {
@@ -407,7 +416,7 @@ fn check_metric(out: &mut Out, kind: Kind, x: &[f64], y: &[f64], z: &[f64], f32m
         match dist(kind, a, b, f32m) {
             Ok(v) => d[k] = v,
             Err(msg) => {
-                out.fail("closed_form", &format!("panic on equal-length finite vectors ({}): {}", nm, msg), input);
+                vfail(out, "closed_form", &format!("panic on equal-length finite vectors ({}): {}", nm, msg), input);
                 return;
             }
         }
@@ -425,7 +434,7 @@ fn check_metric(out: &mut Out, kind: Kind, x: &[f64], y: &[f64], z: &[f64], f32m
             w["expected"] = json!(r[k]);
             w["got"] = json!(d[k]);
             w["allowed"] = json!(al[k]);
-            out.fail("closed_form", &format!("{} distance differs from its definition beyond rounding", kind.name()), w);
+            vfail(out, "closed_form", &format!("{} distance differs from its definition beyond rounding", kind.name()), w);
             return;
         }
     }
@@ -435,7 +444,7 @@ fn check_metric(out: &mut Out, kind: Kind, x: &[f64], y: &[f64], z: &[f64], f32m
             let mut w = input.clone();
             w["pair"] = json!(pairs[k].0);
             w["got"] = json!(format!("{}", d[k]));
-            out.fail("non_negative", "distance is negative or NaN", w);
+            vfail(out, "non_negative", "distance is negative or NaN", w);
             return;
         }
     }
@@ -443,14 +452,14 @@ fn check_metric(out: &mut Out, kind: Kind, x: &[f64], y: &[f64], z: &[f64], f32m
     if d[4] != 0.0 || d[5] != 0.0 {
         let mut w = input.clone();
         w["got"] = json!([d[4], d[5]]);
-        out.fail("identity", "d(x,x) is not zero", w);
+        vfail(out, "identity", "d(x,x) is not zero", w);
         return;
     }
     // symmetry up to rounding
     if !((d[0] - d[3]).abs() <= al[0]) {
         let mut w = input.clone();
         w["got"] = json!([d[0], d[3]]);
-        out.fail("symmetry", "d(x,y) differs from d(y,x) beyond rounding", w);
+        vfail(out, "symmetry", "d(x,y) differs from d(y,x) beyond rounding", w);
         return;
     }
     // triangle inequality up to rounding
@@ -460,7 +469,7 @@ fn check_metric(out: &mut Out, kind: Kind, x: &[f64], y: &[f64], z: &[f64], f32m
     if !(d[2] <= d[0] + d[1] + al[0] + al[1] + al[2]) {
         let mut w = input.clone();
         w["got"] = json!({"d_xz": d[2], "d_xy": d[0], "d_yz": d[1]});
-        out.fail("triangle", "d(x,z) > d(x,y) + d(y,z) beyond rounding", w);
+        vfail(out, "triangle", "d(x,z) > d(x,y) + d(y,z) beyond rounding", w);
     }
 }
 
@@ -482,10 +491,10 @@ fn check_minkowski_special(out: &mut Out, x: &[f64], y: &[f64], f32m: bool) {
                 if !((a - b).abs() <= al) {
                     let mut w = input.clone();
                     w["got"] = json!({"minkowski": a, "other": b, "allowed": al});
-                    out.fail("minkowski_special_orders", &format!("Minkowski of order {} differs from {}", p, other.name()), w);
+                    vfail(out, "minkowski_special_orders", &format!("Minkowski of order {} differs from {}", p, other.name()), w);
                 }
             }
-            (a, b) => out.fail("minkowski_special_orders", &format!("panic: {:?} {:?}", a.err(), b.err()), input),
+            (a, b) => vfail(out, "minkowski_special_orders", &format!("panic: {:?} {:?}", a.err(), b.err()), input),
         }
     }
 }
@@ -500,7 +509,7 @@ fn check_mismatch(out: &mut Out, kind: Kind, x: &[f64], y: &[f64], f32m: bool) {
     if let Ok(v) = dist(kind, x, y, f32m) {
         let mut w = input.clone();
         w["got"] = json!(format!("{}", v));
-        out.fail("length_mismatch_rejected", "vectors of different length were accepted", w);
+        vfail(out, "length_mismatch_rejected", "vectors of different length were accepted", w);
     }
 }
 
@@ -689,7 +698,7 @@ fn check_maha(out: &mut Out, cov: Option<&[Vec<f64>]>, data: Option<&[Vec<f64>]>
     let m = match if let Some(c) = cov { Maha::from_cov(c, f32m) } else { Maha::from_data(data.unwrap(), f32m) } {
         Ok(m) => m,
         Err(msg) => {
-            out.fail("mahalanobis_closed_form", &format!("construction panicked on a well-conditioned positive-definite covariance: {}", msg), input);
+            vfail(out, "mahalanobis_closed_form", &format!("construction panicked on a well-conditioned positive-definite covariance: {}", msg), input);
             return;
         }
     };
@@ -715,7 +724,7 @@ fn check_maha(out: &mut Out, cov: Option<&[Vec<f64>]>, data: Option<&[Vec<f64>]>
                 w["at"] = json!([i, j]);
                 w["expected"] = json!(sigma_ref[i][j]);
                 w["got"] = json!(sig[i][j]);
-                out.fail("mahalanobis_covariance", "stored sigma differs from the sample covariance (divisor m-1) / the given covariance", w);
+                vfail(out, "mahalanobis_covariance", "stored sigma differs from the sample covariance (divisor m-1) / the given covariance", w);
                 return;
             }
         }
@@ -736,7 +745,7 @@ fn check_maha(out: &mut Out, cov: Option<&[Vec<f64>]>, data: Option<&[Vec<f64>]>
                 w["at"] = json!([i, j]);
                 w["residual"] = json!(e);
                 w["allowed"] = json!(res_al);
-                out.fail("mahalanobis_inverse", "sigmaInv * sigma is not the identity within cond * n * eps", w);
+                vfail(out, "mahalanobis_inverse", "sigmaInv * sigma is not the identity within cond * n * eps", w);
                 return;
             }
         }
@@ -748,7 +757,7 @@ fn check_maha(out: &mut Out, cov: Option<&[Vec<f64>]>, data: Option<&[Vec<f64>]>
         match m.distance(a, b) {
             Ok(v) => d[k] = v,
             Err(msg) => {
-                out.fail("mahalanobis_closed_form", &format!("panic ({}): {}", nm, msg), input);
+                vfail(out, "mahalanobis_closed_form", &format!("panic ({}): {}", nm, msg), input);
                 return;
             }
         }
@@ -779,7 +788,7 @@ fn check_maha(out: &mut Out, cov: Option<&[Vec<f64>]>, data: Option<&[Vec<f64>]>
             w["expected"] = json!(r);
             w["got"] = json!(format!("{}", d[k]));
             w["allowed"] = json!(al[k]);
-            out.fail("mahalanobis_closed_form", "distance differs from sqrt((x-y)^T Sigma^-1 (x-y)) beyond the conditioning allowance", w);
+            vfail(out, "mahalanobis_closed_form", "distance differs from sqrt((x-y)^T Sigma^-1 (x-y)) beyond the conditioning allowance", w);
             return;
         }
     }
@@ -788,24 +797,24 @@ fn check_maha(out: &mut Out, cov: Option<&[Vec<f64>]>, data: Option<&[Vec<f64>]>
             let mut w = input.clone();
             w["pair"] = json!(pairs[k].0);
             w["got"] = json!(format!("{}", d[k]));
-            out.fail("non_negative", "Mahalanobis distance is negative or NaN", w);
+            vfail(out, "non_negative", "Mahalanobis distance is negative or NaN", w);
             return;
         }
     }
     if d[4] != 0.0 || d[5] != 0.0 {
-        out.fail("identity", "Mahalanobis d(x,x) is not zero", input);
+        vfail(out, "identity", "Mahalanobis d(x,x) is not zero", input);
         return;
     }
     if !((d[0] - d[3]).abs() <= 8.0 * u * d[0]) {
         let mut w = input.clone();
         w["got"] = json!([d[0], d[3]]);
-        out.fail("symmetry", "Mahalanobis d(x,y) differs from d(y,x)", w);
+        vfail(out, "symmetry", "Mahalanobis d(x,y) differs from d(y,x)", w);
         return;
     }
     if !(d[2] <= d[0] + d[1] + al[0] + al[1] + al[2]) {
         let mut w = input.clone();
         w["got"] = json!({"d_xz": d[2], "d_xy": d[0], "d_yz": d[1]});
-        out.fail("triangle", "Mahalanobis d(x,z) > d(x,y) + d(y,z) beyond rounding", w);
+        vfail(out, "triangle", "Mahalanobis d(x,z) > d(x,y) + d(y,z) beyond rounding", w);
     }
 }
 
@@ -821,7 +830,7 @@ fn check_maha_identity(out: &mut Out, x: &[f64], y: &[f64], f32m: bool) {
     let m = match Maha::from_cov(&id, f32m) {
         Ok(m) => m,
         Err(msg) => {
-            out.fail("mahalanobis_identity_is_euclidean", &format!("construction panicked: {}", msg), input);
+            vfail(out, "mahalanobis_identity_is_euclidean", &format!("construction panicked: {}", msg), input);
             return;
         }
     };
@@ -830,10 +839,10 @@ fn check_maha_identity(out: &mut Out, x: &[f64], y: &[f64], f32m: bool) {
             if !((a - b).abs() <= 2.0 * allowance(Kind::Euclid, n, b, f32m)) {
                 let mut w = input.clone();
                 w["got"] = json!({"mahalanobis": a, "euclid": b});
-                out.fail("mahalanobis_identity_is_euclidean", "Mahalanobis with identity covariance differs from Euclidian", w);
+                vfail(out, "mahalanobis_identity_is_euclidean", "Mahalanobis with identity covariance differs from Euclidian", w);
             }
         }
-        (a, b) => out.fail("mahalanobis_identity_is_euclidean", &format!("panic: {:?} {:?}", a.err(), b.err()), input.clone()),
+        (a, b) => vfail(out, "mahalanobis_identity_is_euclidean", &format!("panic: {:?} {:?}", a.err(), b.err()), input.clone()),
     }
     // wrong lengths (shorter / longer, either side)
     let mut xs = x.to_vec();
@@ -844,7 +853,7 @@ fn check_maha_identity(out: &mut Out, x: &[f64], y: &[f64], f32m: bool) {
         out.count("search:mismatch:mahalanobis");
         if let Ok(v) = m.distance(a, b) {
             let w = json!({"entry": "maha_mismatch", "n": n, "x": a, "y": b, "f32": f32m, "got": format!("{}", v)});
-            out.fail("length_mismatch_rejected", "Mahalanobis accepted a vector whose length differs from the covariance", w);
+            vfail(out, "length_mismatch_rejected", "Mahalanobis accepted a vector whose length differs from the covariance", w);
             return;
         }
     }
@@ -951,6 +960,605 @@ fn maha_vectors(rng: &mut Rng, n: usize, scale: f64, fam: usize, f32m: bool) -> 
 const MAHA_FAMILIES: [&str; 4] = ["random", "equal", "one-coordinate", "collinear"];
 
 // ------------------------------------------------------------------------------------------
+// structured covariances: small-integer symmetric matrices made positive definite by strict diagonal
+// dominance.  A constructor that takes a structural special case of the covariance by mistake
+// ("diagonal", "sparse", "scalar", ... detected by a test that also fires on other matrices) computes a
+// wrong inverse only on matrices that *have* such structure, which random positive definite matrices
+// never do; these families enumerate the structure (exact cancellations, exact zeros, equalities).
+// ------------------------------------------------------------------------------------------
+const S_PATTERNS: [&str; 13] = [
+    "dense", "zero-offdiag-sum", "zero-row-sums", "signed-pair", "sparse", "tridiagonal", "arrow", "block-diagonal", "permuted-diagonal", "clean-row",
+    "constant-offdiag", "diagonal", "identity",
+];
+const S_DIAGS: [&str; 3] = ["dominant", "equal", "one-dominant"];
+const S_SCALES: [&str; 8] = ["one", "one", "one", "rational", "pow2", "pow10", "unit-trace", "unit-diagonal"];
+const S_VECS: [&str; 6] = ["unit", "integer", "equal", "one-coordinate", "collinear", "random"];
+
+fn nzi(rng: &mut Rng) -> i64 {
+    let v = rng.int(1, 3);
+    if rng.bool() {
+        v
+    } else {
+        -v
+    }
+}
+fn set_sym(a: &mut Vec<Vec<i64>>, i: usize, j: usize, v: i64) {
+    a[i][j] = v;
+    a[j][i] = v;
+}
+fn permute_sym(rng: &mut Rng, a: &mut Vec<Vec<i64>>) {
+    let n = a.len();
+    let mut p: Vec<usize> = (0..n).collect();
+    rng.shuffle(&mut p);
+    let b = a.clone();
+    for i in 0..n {
+        for j in 0..n {
+            a[i][j] = b[p[i]][p[j]];
+        }
+    }
+}
+fn upper_positions(n: usize) -> Vec<(usize, usize)> {
+    let mut v = vec![];
+    for i in 0..n {
+        for j in (i + 1)..n {
+            v.push((i, j));
+        }
+    }
+    v
+}
+/// the off-diagonal part (symmetric, zero diagonal, entries in -3..=3) of pattern `pat`
+fn struct_offdiag(rng: &mut Rng, n: usize, pat: &str) -> Vec<Vec<i64>> {
+    let mut a = vec![vec![0i64; n]; n];
+    let ups = upper_positions(n);
+    match pat {
+        "zero-offdiag-sum" if n >= 3 => {
+            // positive and negative entries cancel exactly in the sum of all off-diagonal entries
+            for &(i, j) in &ups {
+                set_sym(&mut a, i, j, rng.int(-3, 3));
+            }
+            let mut s: i64 = ups.iter().map(|&(i, j)| a[i][j]).sum();
+            while s != 0 {
+                let (i, j) = ups[rng.below(ups.len())];
+                if s > 0 && a[i][j] > -3 {
+                    let v = a[i][j] - 1;
+                    set_sym(&mut a, i, j, v);
+                    s -= 1;
+                } else if s < 0 && a[i][j] < 3 {
+                    let v = a[i][j] + 1;
+                    set_sym(&mut a, i, j, v);
+                    s += 1;
+                }
+            }
+            if ups.iter().all(|&(i, j)| a[i][j] == 0) {
+                let v = nzi(rng);
+                let mut q = ups.clone();
+                rng.shuffle(&mut q);
+                set_sym(&mut a, q[0].0, q[0].1, v);
+                set_sym(&mut a, q[1].0, q[1].1, -v);
+            }
+        }
+        "zero-row-sums" if n >= 4 => {
+            // sums of signed 4-cycles: every row of the off-diagonal part sums to zero
+            for t in 0..rng.usize_in(1, 3) {
+                let mut idx: Vec<usize> = (0..n).collect();
+                rng.shuffle(&mut idx);
+                let (i, j, k, l) = (idx[0], idx[1], idx[2], idx[3]);
+                let sg = if rng.bool() { 1 } else { -1 };
+                let upd = [(i, j, sg), (k, l, sg), (j, k, -sg), (l, i, -sg)];
+                if t == 0 || upd.iter().all(|&(p, q, d)| (a[p][q] + d).abs() <= 3) {
+                    for &(p, q, d) in &upd {
+                        let v = a[p][q] + d;
+                        set_sym(&mut a, p, q, v);
+                    }
+                }
+            }
+        }
+        "zero-row-sums" if n == 3 => return struct_offdiag(rng, n, "zero-offdiag-sum"),
+        "signed-pair" if n >= 3 => {
+            // entries come in pairs +v, -v
+            let mut q = ups.clone();
+            rng.shuffle(&mut q);
+            let t = rng.usize_in(1, (q.len() / 2).min(3));
+            for k in 0..t {
+                let v = nzi(rng);
+                set_sym(&mut a, q[2 * k].0, q[2 * k].1, v);
+                set_sym(&mut a, q[2 * k + 1].0, q[2 * k + 1].1, -v);
+            }
+        }
+        "sparse" => {
+            for &(i, j) in &ups {
+                if rng.chance(0.3) {
+                    let v = nzi(rng);
+                    set_sym(&mut a, i, j, v);
+                }
+            }
+            if !ups.is_empty() && ups.iter().all(|&(i, j)| a[i][j] == 0) {
+                let (i, j) = ups[rng.below(ups.len())];
+                let v = nzi(rng);
+                set_sym(&mut a, i, j, v);
+            }
+        }
+        "tridiagonal" => {
+            for i in 0..(n - 1) {
+                let v = nzi(rng);
+                set_sym(&mut a, i, i + 1, v);
+            }
+        }
+        "arrow" => {
+            let any = rng.below(n);
+            let r = *rng.pick(&[0, n - 1, any]);
+            for j in 0..n {
+                if j != r {
+                    let v = nzi(rng);
+                    set_sym(&mut a, r, j, v);
+                }
+            }
+        }
+        "block-diagonal" => {
+            let mut start = 0;
+            while start < n {
+                let size = rng.usize_in(1, 3).min(n - start);
+                for i in start..(start + size) {
+                    for j in (i + 1)..(start + size) {
+                        let v = nzi(rng);
+                        set_sym(&mut a, i, j, v);
+                    }
+                }
+                start += size;
+            }
+            if rng.bool() {
+                permute_sym(rng, &mut a);
+            }
+        }
+        "permuted-diagonal" => {
+            // the off-diagonal part is a (scaled) permutation pattern of an involution
+            if rng.bool() {
+                for i in 0..n / 2 {
+                    let v = nzi(rng);
+                    set_sym(&mut a, i, n - 1 - i, v);
+                }
+            } else {
+                let mut idx: Vec<usize> = (0..n).collect();
+                rng.shuffle(&mut idx);
+                for t in 0..n / 2 {
+                    let v = nzi(rng);
+                    set_sym(&mut a, idx[2 * t], idx[2 * t + 1], v);
+                }
+            }
+        }
+        "clean-row" => {
+            // one variable uncorrelated with the rest (first, last or any), the others dense
+            for &(i, j) in &ups {
+                let v = nzi(rng);
+                set_sym(&mut a, i, j, v);
+            }
+            let any = rng.below(n);
+            let r = *rng.pick(&[0, n - 1, any]);
+            for j in 0..n {
+                set_sym(&mut a, r, j, 0);
+            }
+        }
+        "constant-offdiag" => {
+            let v = nzi(rng);
+            for &(i, j) in &ups {
+                set_sym(&mut a, i, j, v);
+            }
+        }
+        "diagonal" | "identity" => {}
+        _ => {
+            // "dense", and the patterns that need a larger dimension
+            for &(i, j) in &ups {
+                set_sym(&mut a, i, j, rng.int(-3, 3));
+            }
+        }
+    }
+    a
+}
+/// integer symmetric positive definite matrix: pattern `pat` off the diagonal, diagonal = absolute row
+/// sum + a positive slack (strict diagonal dominance)
+fn struct_cov_int(rng: &mut Rng, n: usize, pat: &str, diag: &str) -> Vec<Vec<i64>> {
+    let mut a = struct_offdiag(rng, n, pat);
+    if pat == "identity" {
+        for i in 0..n {
+            a[i][i] = 1;
+        }
+        return a;
+    }
+    let r: Vec<i64> = (0..n).map(|i| a[i].iter().map(|v| v.abs()).sum()).collect();
+    let slack = |rng: &mut Rng| *rng.pick(&[1i64, 1, 2, 3, 4, 9]);
+    match diag {
+        "equal" => {
+            let d = r.iter().cloned().max().unwrap_or(0) + slack(rng);
+            for i in 0..n {
+                a[i][i] = d;
+            }
+        }
+        _ => {
+            for i in 0..n {
+                a[i][i] = r[i] + slack(rng);
+            }
+            if diag == "one-dominant" {
+                let k = rng.below(n);
+                a[k][k] += *rng.pick(&[100i64, 225, 400]);
+            }
+        }
+    }
+    a
+}
+/// (numerator, denominator) of the scaling applied to the integer matrix `s`
+fn struct_scale(rng: &mut Rng, kind: &str, s: &[Vec<i64>]) -> (i64, i64) {
+    match kind {
+        // trace = dimension although the matrix is not the identity
+        "unit-trace" => (s.len() as i64, (0..s.len()).map(|i| s[i][i]).sum()),
+        // first diagonal entry one (all of them for the equal-diagonal matrices: a correlation matrix)
+        "unit-diagonal" => (1, s[0][0]),
+        "rational" => (rng.int(1, 9), *rng.pick(&[2i64, 3, 5, 6, 7, 9, 10, 12, 100])),
+        "pow2" => {
+            let k = rng.int(1, 12);
+            if rng.bool() {
+                (1 << k, 1)
+            } else {
+                (1, 1 << k)
+            }
+        }
+        "pow10" => {
+            let k = rng.int(1, 6) as u32;
+            if rng.bool() {
+                (10i64.pow(k), 1)
+            } else {
+                (1, 10i64.pow(k))
+            }
+        }
+        _ => (1, 1),
+    }
+}
+fn scaled_cov(s: &[Vec<i64>], mult: (i64, i64), f32m: bool) -> Vec<Vec<f64>> {
+    s.iter()
+        .map(|r| {
+            r.iter()
+                .map(|v| {
+                    let w = (*v as f64 * mult.0 as f64) / mult.1 as f64;
+                    if f32m {
+                        w as f32 as f64
+                    } else {
+                        w
+                    }
+                })
+                .collect()
+        })
+        .collect()
+}
+/// vectors on the integer lattice scaled by the power of two `vs` (exact in both widths); "random" is Gaussian
+fn struct_vectors(rng: &mut Rng, n: usize, fam: &str, vs: f64, f32m: bool) -> (Vec<f64>, Vec<f64>, Vec<f64>) {
+    let iv = |rng: &mut Rng| -> Vec<f64> { (0..n).map(|_| rng.int(-4, 4) as f64 * vs).collect() };
+    let (x, y, z): (Vec<f64>, Vec<f64>, Vec<f64>) = match fam {
+        "unit" => {
+            let mut x = vec![0.0; n];
+            x[rng.below(n)] = vs;
+            let mut z = vec![0.0; n];
+            z[rng.below(n)] = if rng.bool() { vs } else { -vs };
+            (x, vec![0.0; n], z)
+        }
+        "equal" => {
+            let x = iv(rng);
+            (x.clone(), x, iv(rng))
+        }
+        "one-coordinate" => {
+            let x = iv(rng);
+            let mut y = x.clone();
+            y[rng.below(n)] += nzi(rng) as f64 * vs;
+            let mut z = y.clone();
+            z[rng.below(n)] += nzi(rng) as f64 * vs;
+            (x, y, z)
+        }
+        "collinear" => {
+            let x = iv(rng);
+            let d = iv(rng);
+            let (a, b) = (rng.int(0, 3) as f64, rng.int(0, 3) as f64);
+            let y: Vec<f64> = (0..n).map(|i| x[i] + a * d[i]).collect();
+            let z: Vec<f64> = (0..n).map(|i| y[i] + b * d[i]).collect();
+            (x, y, z)
+        }
+        "random" => {
+            let g = |rng: &mut Rng| -> Vec<f64> { (0..n).map(|_| rng.normal() * vs).collect() };
+            (g(rng), g(rng), g(rng))
+        }
+        _ => (iv(rng), iv(rng), iv(rng)),
+    };
+    if f32m {
+        (snap32(&x), snap32(&y), snap32(&z))
+    } else {
+        (x, y, z)
+    }
+}
+/// power of two nearest to sqrt(num/den): vectors of that size have Mahalanobis distances of order one
+fn vec_scale(mult: (i64, i64)) -> f64 {
+    let l = 0.5 * (mult.0 as f64 / mult.1 as f64).log2();
+    (2.0f64).powi(l.round() as i32)
+}
+
+// ---- data sets whose sample covariance is a prescribed structured matrix ----
+/// integer vectors l_c with sum_c l_c l_c^T = S for a symmetric, diagonally dominant integer S:
+/// |s_ij| copies of e_i + sign(s_ij) e_j, and the diagonal slack as a sum of squares w^2 (w e_i)
+fn gram_columns(s: &[Vec<i64>]) -> Option<Vec<Vec<i64>>> {
+    let n = s.len();
+    let mut cols: Vec<Vec<i64>> = vec![];
+    for i in 0..n {
+        for j in (i + 1)..n {
+            for _ in 0..s[i][j].abs() {
+                let mut c = vec![0i64; n];
+                c[i] = 1;
+                c[j] = s[i][j].signum();
+                cols.push(c);
+            }
+        }
+    }
+    for i in 0..n {
+        let mut slack = s[i][i] - (0..n).filter(|j| *j != i).map(|j| s[i][j].abs()).sum::<i64>();
+        if slack < 0 {
+            return None;
+        }
+        while slack > 0 {
+            let mut w = (slack as f64).sqrt() as i64;
+            while w * w > slack {
+                w -= 1;
+            }
+            let mut c = vec![0i64; n];
+            c[i] = w;
+            cols.push(c);
+            slack -= w * w;
+        }
+    }
+    Some(cols)
+}
+/// rows of a centred orthogonal design times the factor: the sample covariance (divisor m-1) of the
+/// result is exactly (num/den) * sum_c l_c l_c^T.  "pm": rows +l_c and -l_c (m = 2k, 2/(2k-1));
+/// "hadamard": rows sum_c h(r,c) l_c over the non-constant columns of the Sylvester matrix of order
+/// m = 2^t > k (m/(m-1)).  Every row is shifted by the integer vector `offset`.
+fn design_data(rng: &mut Rng, cols: &[Vec<i64>], n: usize, kind: &str, offset: &[i64]) -> (Vec<Vec<f64>>, (i64, i64)) {
+    let k = cols.len();
+    let mut rows: Vec<Vec<i64>> = vec![];
+    let mult;
+    if kind == "hadamard" {
+        let mut m = 2usize;
+        while m < k + 1 {
+            m *= 2;
+        }
+        for r in 0..m {
+            let mut row = vec![0i64; n];
+            for (c, col) in cols.iter().enumerate() {
+                let sg = if (r & (c + 1)).count_ones() % 2 == 0 { 1 } else { -1 };
+                for i in 0..n {
+                    row[i] += sg * col[i];
+                }
+            }
+            rows.push(row);
+        }
+        mult = (m as i64, m as i64 - 1);
+    } else {
+        for col in cols {
+            rows.push(col.clone());
+            rows.push(col.iter().map(|v| -v).collect());
+        }
+        mult = (2, 2 * k as i64 - 1);
+    }
+    rng.shuffle(&mut rows);
+    (rows.iter().map(|r| (0..n).map(|i| (r[i] + offset[i]) as f64).collect()).collect(), mult)
+}
+fn struct_offset(rng: &mut Rng, n: usize) -> Vec<i64> {
+    match rng.below(4) {
+        0 | 1 => vec![0; n],
+        2 => (0..n).map(|_| rng.int(-20, 20)).collect(),
+        _ => (0..n).map(|_| rng.int(-2, 2) * 1000 + rng.int(-9, 9)).collect(),
+    }
+}
+
+// ---- exact rational reference for integer covariances and integer vectors ----
+/// z^T S^-1 z = num/den (den = det S > 0) for an integer symmetric positive definite S, by fraction-free
+/// (Bareiss) elimination of the bordered matrix [[S, z], [z^T, 0]] whose determinant is -det(S) z^T S^-1 z
+fn exact_quad(s: &[Vec<i64>], z: &[i64]) -> Option<(i128, i128)> {
+    let n = s.len();
+    let mut m = vec![vec![0i128; n + 1]; n + 1];
+    for i in 0..n {
+        for j in 0..n {
+            m[i][j] = s[i][j] as i128;
+        }
+        m[i][n] = z[i] as i128;
+        m[n][i] = z[i] as i128;
+    }
+    let mut prev: i128 = 1;
+    for k in 0..n {
+        if m[k][k] <= 0 {
+            return None; // a leading principal minor is not positive: not positive definite
+        }
+        for i in (k + 1)..=n {
+            for j in (k + 1)..=n {
+                let v = m[k][k].checked_mul(m[i][j])?.checked_sub(m[i][k].checked_mul(m[k][j])?)?;
+                m[i][j] = v / prev;
+            }
+        }
+        prev = m[k][k];
+    }
+    Some((-m[n][n], prev))
+}
+fn as_ints(v: &[f64]) -> Option<Vec<i64>> {
+    v.iter().map(|t| if t.fract() == 0.0 && t.abs() < 1e6 { Some(*t as i64) } else { None }).collect()
+}
+/// Mahalanobis against the exact rational closed form: covariance (num/den) * S with S an integer matrix
+/// (given to `new_from_covariance`, or arising as the sample covariance of `data`), integer vectors
+fn check_maha_exact(out: &mut Out, s: &[Vec<i64>], mult: (i64, i64), data: Option<&[Vec<f64>]>, x: &[f64], y: &[f64], z: &[f64], f32m: bool, fam: &str) {
+    let n = s.len();
+    let input = json!({"entry": "maha_exact", "s": s, "mult": [mult.0, mult.1], "data": data, "x": x, "y": y, "z": z, "f32": f32m});
+    let (xi, yi, zi) = match (as_ints(x), as_ints(y), as_ints(z)) {
+        (Some(a), Some(b), Some(c)) => (a, b, c),
+        _ => return,
+    };
+    if x.len() != n || y.len() != n || z.len() != n || mult.0 <= 0 || mult.1 <= 0 {
+        return;
+    }
+    let u = unit(f32m);
+    let c = mult.0 as f64 / mult.1 as f64;
+    let sf: Vec<Vec<f64>> = s.iter().map(|r| r.iter().map(|v| *v as f64).collect()).collect();
+    let (lmin_s, lmax_s) = sym_eig_range(&sf);
+    let cond = if lmin_s > 0.0 { lmax_s / lmin_s } else { f64::INFINITY };
+    if !(cond <= if f32m { COND_MAX_32 } else { COND_MAX_64 }) {
+        out.count("search:mahalanobis:excluded-condition-number");
+        return;
+    }
+    if let Some(d) = data {
+        // the premise of this oracle: the sample covariance of the data is (num/den) S
+        let (rc, _) = ref_cov(d);
+        let big = c * s.iter().flatten().map(|v| v.abs()).max().unwrap_or(1) as f64;
+        if rc.len() != n || (0..n).any(|i| (0..n).any(|j| !((rc[i][j] - c * sf[i][j]).abs() <= 1e-12 * big))) {
+            out.count("search:mahalanobis:excluded-data-not-of-that-covariance");
+            return;
+        }
+    }
+    let mut kd: Vec<f64> = x.iter().chain(y.iter()).chain(z.iter()).cloned().collect();
+    kd.extend(sf.iter().flatten());
+    kd.extend([mult.0 as f64, mult.1 as f64, if f32m { 401.0 } else { 400.0 }, data.map(|d| d.len() as f64).unwrap_or(0.0)]);
+    out.eval(hash_f64s(&kd), n >= 2 && x != y && y != z);
+    out.count(&format!("search:mahalanobis-exact:{}:{}", if data.is_some() { "from-data" } else { "from-covariance" }, if f32m { "f32" } else { "f64" }));
+    out.count(&format!("search:mahalanobis-exact:family:{}", fam));
+    let built = match data {
+        Some(d) => Maha::from_data(d, f32m),
+        None => Maha::from_cov(&scaled_cov(s, mult, f32m), f32m),
+    };
+    let m = match built {
+        Ok(m) => m,
+        Err(msg) => {
+            vfail(out, "mahalanobis_closed_form_exact", &format!("construction panicked on a well-conditioned positive-definite covariance: {}", msg), input);
+            return;
+        }
+    };
+    let nf = n as f64;
+    let pairs: [(&str, &[f64], &[f64], &[i64], &[i64]); 3] = [("xy", x, y, &xi, &yi), ("yz", y, z, &yi, &zi), ("xz", x, z, &xi, &zi)];
+    for (nm, a, b, ai, bi) in pairs.iter() {
+        let zz: Vec<i64> = ai.iter().zip(bi.iter()).map(|(p, q)| p - q).collect();
+        let (num, den) = match exact_quad(s, &zz) {
+            Some(v) => v,
+            None => {
+                out.count("search:mahalanobis:excluded-reference-not-spd");
+                return;
+            }
+        };
+        // d^2 = (den_c/num_c) num/den
+        let q = (num as f64 / den as f64) / c;
+        let r = if q > 0.0 { q.sqrt() } else { 0.0 };
+        let z2: f64 = zz.iter().map(|v| (*v as f64) * (*v as f64)).sum();
+        let a2 = u * z2 / (lmin_s * c) * (32.0 * nf * cond + 2.0 * nf * nf * nf.sqrt() + 16.0);
+        let al = if r > 0.0 { (a2 / r).min(a2.sqrt()) } else { 0.0 };
+        let d = match m.distance(a, b) {
+            Ok(v) => v,
+            Err(msg) => {
+                vfail(out, "mahalanobis_closed_form_exact", &format!("panic ({}): {}", nm, msg), input);
+                return;
+            }
+        };
+        if al > 0.0 {
+            note(&format!("mahalanobis_closed_form_exact:{}", if f32m { "f32" } else { "f64" }), (d - r).abs() / al);
+        }
+        if !((d - r).abs() <= al) {
+            let mut w = input.clone();
+            w["pair"] = json!(nm);
+            w["expected"] = json!(r);
+            w["expected_squared_as_fraction"] = json!(format!("({} / {}) * ({} / {})", num, den, mult.1, mult.0));
+            w["got"] = json!(format!("{}", d));
+            w["allowed"] = json!(al);
+            vfail(out, "mahalanobis_closed_form_exact", "distance differs from the exact rational value of sqrt((x-y)^T Sigma^-1 (x-y)) beyond the conditioning allowance", w);
+            return;
+        }
+    }
+}
+
+// ---- structured vectors for the four elementary distances ----
+const S_METRIC: [&str; 9] = ["binary", "sign-flip", "rotation", "constant-shift", "pythagorean", "unit", "dominant-coordinate", "far-lattice", "all-differ"];
+const PYTH: [&[i64]; 12] = [&[3, 4], &[5, 12], &[8, 15], &[7, 24], &[1, 2, 2], &[2, 3, 6], &[1, 4, 8], &[2, 6, 9], &[4, 4, 7], &[1, 1, 1, 1], &[2, 2, 2, 2], &[1, 1, 3, 5]];
+fn struct_triple(rng: &mut Rng, n: usize, fam: &str, f32m: bool) -> (Vec<f64>, Vec<f64>, Vec<f64>) {
+    let iv = |rng: &mut Rng, r: i64| -> Vec<f64> { (0..n).map(|_| rng.int(-r, r) as f64).collect() };
+    // a vector with the entries of a Pythagorean tuple (random signs) at random coordinates, zero elsewhere
+    let tuple = |rng: &mut Rng| -> Vec<f64> {
+        let fits: Vec<&&[i64]> = PYTH.iter().filter(|t| t.len() <= n).collect();
+        let mut v = vec![0.0; n];
+        if fits.is_empty() {
+            v[0] = nzi(rng) as f64;
+            return v;
+        }
+        let t = fits[rng.below(fits.len())];
+        let mut idx: Vec<usize> = (0..n).collect();
+        rng.shuffle(&mut idx);
+        for (k, e) in t.iter().enumerate() {
+            v[idx[k]] = if rng.bool() { *e as f64 } else { -*e as f64 };
+        }
+        v
+    };
+    match fam {
+        "binary" => {
+            let b = |rng: &mut Rng| -> Vec<f64> { (0..n).map(|_| rng.int(0, 1) as f64).collect() };
+            (b(rng), b(rng), b(rng))
+        }
+        "sign-flip" => {
+            let x = iv(rng, 6);
+            let y: Vec<f64> = x.iter().map(|v| 0.0 - v).collect();
+            (x, y, vec![0.0; n])
+        }
+        "rotation" => {
+            // the same multiset of values in another order
+            let x = iv(rng, 3);
+            let y: Vec<f64> = (0..n).map(|i| x[(i + 1) % n]).collect();
+            let z: Vec<f64> = (0..n).map(|i| x[n - 1 - i]).collect();
+            (x, y, z)
+        }
+        "constant-shift" => {
+            let x = iv(rng, 6);
+            let (c, d) = (nzi(rng) as f64 * 0.5, nzi(rng) as f64 * 0.25);
+            let y: Vec<f64> = x.iter().map(|v| v + c).collect();
+            let z: Vec<f64> = y.iter().map(|v| v + d).collect();
+            (x, y, z)
+        }
+        "pythagorean" => {
+            let x = iv(rng, 6);
+            let (s, t) = (tuple(rng), tuple(rng));
+            let y: Vec<f64> = (0..n).map(|i| x[i] + s[i]).collect();
+            let z: Vec<f64> = (0..n).map(|i| y[i] + t[i]).collect();
+            (x, y, z)
+        }
+        "unit" => {
+            let e = |rng: &mut Rng| -> Vec<f64> {
+                let mut v = vec![0.0; n];
+                v[rng.below(n)] = 1.0;
+                v
+            };
+            (e(rng), e(rng), vec![0.0; n])
+        }
+        "dominant-coordinate" => {
+            let x = iv(rng, 2);
+            let mut y: Vec<f64> = x.iter().map(|v| v + nzi(rng).signum() as f64).collect();
+            y[rng.below(n)] += if f32m { 64.0 } else { 1024.0 };
+            let mut z = y.clone();
+            z[rng.below(n)] -= 512.0;
+            (x, y, z)
+        }
+        "far-lattice" => {
+            // far from the origin, small integer separations (every component and difference exact)
+            let k = if f32m { rng.int(8, 18) } else { rng.int(20, 45) };
+            let c = (2.0f64).powi(k as i32);
+            let x: Vec<f64> = (0..n).map(|_| if rng.bool() { c } else { -c } + rng.int(-4, 4) as f64).collect();
+            let y: Vec<f64> = x.iter().map(|v| v + rng.int(-2, 2) as f64).collect();
+            let z: Vec<f64> = y.iter().map(|v| v + rng.int(-2, 2) as f64).collect();
+            (x, y, z)
+        }
+        _ => {
+            // "all-differ": every coordinate differs
+            let x = iv(rng, 6);
+            let y: Vec<f64> = x.iter().map(|v| v + nzi(rng) as f64).collect();
+            let z: Vec<f64> = y.iter().map(|v| v + nzi(rng) as f64).collect();
+            (x, y, z)
+        }
+    }
+}
+
+// ------------------------------------------------------------------------------------------
 // correspondence cases
 // ------------------------------------------------------------------------------------------
 fn bits32(v: f64) -> String {
@@ -1047,6 +1655,45 @@ fn corr_maha(out: &mut Out, cov: Option<&[Vec<f64>]>, data: Option<&[Vec<f64>]>,
     }
 }
 
+/// the constructor as a whole: C01's LU-inverse model applied to the covariance (for data: to the model's
+/// cov of the data) must reproduce the stored inverse, and the distance on it, bit for bit
+fn corr_maha_chain(out: &mut Out, cov: Option<&[Vec<f64>]>, data: Option<&[Vec<f64>]>, x: &[f64], y: &[f64], f32m: bool, fam: &str) {
+    let built = if let Some(c) = cov { Maha::from_cov(c, f32m) } else { Maha::from_data(data.unwrap(), f32m) };
+    let input = json!({"entry": "corr_maha_chain", "cov": cov, "data": data, "x": x, "y": y, "f32": f32m, "family": fam});
+    let m = match built {
+        Ok(m) => m,
+        Err(_) => return,
+    };
+    let sig = m.sigma();
+    let sinv = m.sigma_inv();
+    let n = sig.len();
+    let res = m.distance(x, y).ok();
+    let sfx = if f32m { "f32" } else { "f64" };
+    match (cov, data) {
+        (Some(c), _) => out.corr(
+            &format!("mahalanobis-constructor:from-covariance:{}", sfx),
+            format!("corr_maha_from_cov {} {} {} {} {} {} {}", coq_bool(f32m), coq_n(n), coq_rows_f64(c), coq_rows_f64(&sinv), coq_list_f64(x), coq_list_f64(y), coq_option(res.map(coq_f64))),
+            input,
+        ),
+        (_, Some(d)) => out.corr(
+            &format!("mahalanobis-constructor:from-data:{}", sfx),
+            format!(
+                "corr_maha_from_data {} {} {} {} {} {} {} {}",
+                coq_bool(f32m),
+                coq_n(d[0].len()),
+                coq_rows_f64(d),
+                coq_rows_f64(&sig),
+                coq_rows_f64(&sinv),
+                coq_list_f64(x),
+                coq_list_f64(y),
+                coq_option(res.map(coq_f64))
+            ),
+            input,
+        ),
+        _ => {}
+    }
+}
+
 // ------------------------------------------------------------------------------------------
 // replay
 // ------------------------------------------------------------------------------------------
@@ -1069,13 +1716,19 @@ fn replay_into(out: &mut Out, inp: &Value, fam: &str) -> bool {
             check_maha(out, None, Some(&d), &x, &y, &z, f32m, fam);
         }
         "maha_identity" => check_maha_identity(out, &x, &y, f32m),
+        "maha_exact" => {
+            let si: Vec<Vec<i64>> = rows_from_json(&inp["s"]).iter().map(|r| r.iter().map(|v| *v as i64).collect()).collect();
+            let mult = (inp["mult"][0].as_i64().unwrap_or(1), inp["mult"][1].as_i64().unwrap_or(1));
+            let d = if inp["data"].is_array() { Some(rows_from_json(&inp["data"])) } else { None };
+            check_maha_exact(out, &si, mult, d.as_deref(), &x, &y, &z, f32m, fam);
+        }
         "maha_mismatch" => {
             let n = inp["n"].as_u64().unwrap_or(1) as usize;
             let id: Vec<Vec<f64>> = (0..n).map(|i| (0..n).map(|j| if i == j { 1.0 } else { 0.0 }).collect()).collect();
             out.count("search:mismatch:mahalanobis");
             if let Ok(m) = Maha::from_cov(&id, f32m) {
                 if m.distance(&x, &y).is_ok() {
-                    out.fail("length_mismatch_rejected", "Mahalanobis accepted a vector whose length differs from the covariance", inp.clone());
+                    vfail(out, "length_mismatch_rejected", "Mahalanobis accepted a vector whose length differs from the covariance", inp.clone());
                 }
             }
         }
@@ -1269,6 +1922,146 @@ fn main() {
             let d = gen_data(&mut rng, m, n, cond.powf(0.8), f32m);
             let (x, y, z) = maha_vectors(&mut rng, n, 1.0, fam, f32m);
             check_maha(&mut out, None, Some(&d), &x, &y, &z, f32m, MAHA_FAMILIES[fam]);
+        }
+    }
+    // ---- structured inputs (their own stream, so that the cases above do not depend on them) ----
+    let mut srng = Rng::new(a.seed.wrapping_mul(0x9E37_79B9).wrapping_add(0xC17));
+    // correspondence: the whole constructor (C01's LU inverse in the model) on structured covariances / data
+    let nchain = if a.thorough { 480 } else { 130 };
+    for i in 0..nchain {
+        let f32m = i % 5 == 4;
+        let pat = S_PATTERNS[i % S_PATTERNS.len()];
+        let diag = S_DIAGS[(i / S_PATTERNS.len()) % S_DIAGS.len()];
+        let from_data = i % 3 == 2;
+        let n = if from_data { srng.usize_in(2, 4) } else { srng.usize_in(2, 6) };
+        let s = struct_cov_int(&mut srng, n, pat, diag);
+        let vfam = S_VECS[srng.below(S_VECS.len())];
+        if from_data {
+            let cols = match gram_columns(&s) {
+                Some(c) => c,
+                None => continue,
+            };
+            let off = struct_offset(&mut srng, n);
+            let (d, mult) = design_data(&mut srng, &cols, n, if i % 2 == 0 { "pm" } else { "hadamard" }, &off);
+            let (x, y, _) = struct_vectors(&mut srng, n, vfam, vec_scale(mult), f32m);
+            let mut xo: Vec<f64> = (0..n).map(|k| x[k] + off[k] as f64).collect();
+            let mut yo: Vec<f64> = (0..n).map(|k| y[k] + off[k] as f64).collect();
+            if f32m {
+                xo = snap32(&xo);
+                yo = snap32(&yo);
+            }
+            corr_maha_chain(&mut out, None, Some(&d), &xo, &yo, f32m, pat);
+        } else {
+            let sk = S_SCALES[srng.below(S_SCALES.len())];
+            let mult = struct_scale(&mut srng, sk, &s);
+            let c = scaled_cov(&s, mult, f32m);
+            let (x, y, _) = struct_vectors(&mut srng, n, vfam, vec_scale(mult), f32m);
+            corr_maha_chain(&mut out, Some(&c), None, &x, &y, f32m, pat);
+        }
+    }
+    // correspondence: structured vectors for the elementary distances
+    for (i, fam) in S_METRIC.iter().enumerate() {
+        for rep in 0..(if a.thorough { 6 } else { 2 }) {
+            let f32m = (i + rep) % 2 == 1;
+            let n = srng.usize_in(1, 12);
+            let (x, y, _) = struct_triple(&mut srng, n, fam, f32m);
+            for k in [Kind::Euclid, Kind::Manhattan, Kind::Hamming, Kind::Minkowski(1), Kind::Minkowski(2), Kind::Minkowski(3 + (rep % 6) as u16)] {
+                corr_dist(&mut out, k, &x, &y, f32m);
+            }
+        }
+    }
+    // search: structured covariances (given, and arising as the sample covariance of designed data)
+    let sreps = if a.thorough { 100 } else { 8 };
+    let mut case = 0usize;
+    for _rep in 0..sreps {
+        for n in 2..=6usize {
+            for pat in S_PATTERNS {
+                for diag in S_DIAGS {
+                    for v in 0..S_VECS.len() {
+                        case += 1;
+                        let f32m = case % 4 == 3;
+                        let s = struct_cov_int(&mut srng, n, pat, diag);
+                        let vfam = S_VECS[v];
+                        let mode = (case + case / S_VECS.len()) % 3;
+                        let label = format!("structured:{}", pat);
+                        out.count(&format!("search:mahalanobis:structured:diagonal:{}", diag));
+                        out.count(&format!("search:mahalanobis:structured:vectors:{}", vfam));
+                        if mode != 2 {
+                            // new_from_covariance
+                            let sk = S_SCALES[srng.below(S_SCALES.len())];
+                            out.count(&format!("search:mahalanobis:structured:scale:{}", sk));
+                            let mult = struct_scale(&mut srng, sk, &s);
+                            let c = scaled_cov(&s, mult, f32m);
+                            let (x, y, z) = struct_vectors(&mut srng, n, vfam, vec_scale(mult), f32m);
+                            check_maha(&mut out, Some(&c), None, &x, &y, &z, f32m, &label);
+                            if vfam != "random" {
+                                // the same triple in units of the vector scale is integer: exact rational reference
+                                let vs = vec_scale(mult);
+                                let (xi, yi, zi): (Vec<f64>, Vec<f64>, Vec<f64>) = (x.iter().map(|t| t / vs).collect(), y.iter().map(|t| t / vs).collect(), z.iter().map(|t| t / vs).collect());
+                                check_maha_exact(&mut out, &s, mult, None, &xi, &yi, &zi, f32m, &label);
+                            }
+                            if out.n_fail() == 0 && _rep == 0 && n == 4 && diag == "dominant" && v == 1 {
+                                out.sample(json!({"entry": "maha_cov", "cov": c, "x": x, "y": y, "z": z, "f32": f32m, "pattern": pat}));
+                            }
+                        } else {
+                            // new(data): the sample covariance of the designed data is (num/den) S
+                            let cols = match gram_columns(&s) {
+                                Some(c) => c,
+                                None => continue,
+                            };
+                            let off = struct_offset(&mut srng, n);
+                            let kind = if case % 2 == 0 { "pm" } else { "hadamard" };
+                            out.count(&format!("search:mahalanobis:structured:design:{}", kind));
+                            let (d, mult) = design_data(&mut srng, &cols, n, kind, &off);
+                            let (x, y, z) = struct_vectors(&mut srng, n, vfam, 1.0, f32m);
+                            let sh = |v: &Vec<f64>| -> Vec<f64> {
+                                let w: Vec<f64> = (0..n).map(|k| v[k] + off[k] as f64).collect();
+                                if f32m {
+                                    snap32(&w)
+                                } else {
+                                    w
+                                }
+                            };
+                            let (x, y, z) = (sh(&x), sh(&y), sh(&z));
+                            let label = format!("structured-data:{}", pat);
+                            check_maha(&mut out, None, Some(&d), &x, &y, &z, f32m, &label);
+                            if vfam != "random" {
+                                check_maha_exact(&mut out, &s, mult, Some(&d), &x, &y, &z, f32m, &label);
+                            }
+                        }
+                    }
+                }
+            }
+        }
+    }
+    // search: structured vectors for the elementary distances (every kind, every length)
+    for rep in 0..(if a.thorough { 30 } else { 3 }) {
+        for n in 1..=30usize {
+            for (fi, fam) in S_METRIC.iter().enumerate() {
+                let f32m = (rep + n + fi) % 3 == 2;
+                let (x, y, z) = struct_triple(&mut srng, n, fam, f32m);
+                for &k in &all_kinds {
+                    check_metric(&mut out, k, &x, &y, &z, f32m, &format!("structured:{}", fam));
+                }
+                check_minkowski_special(&mut out, &x, &y, f32m);
+                check_minkowski_special(&mut out, &y, &z, f32m);
+                if fi % 3 == 0 {
+                    check_maha_identity(&mut out, &x, &y, f32m);
+                }
+            }
+            // vectors equal except for coordinate i, for every i (z differs from y in the mirrored coordinate)
+            for i in 0..n {
+                let f32m = (rep + n + i) % 3 == 2;
+                let x: Vec<f64> = (0..n).map(|_| srng.int(-3, 3) as f64).collect();
+                let mut y = x.clone();
+                y[i] += nzi(&mut srng) as f64;
+                let mut z = y.clone();
+                z[n - 1 - i] += nzi(&mut srng) as f64 * 2.0;
+                for &k in &all_kinds {
+                    check_metric(&mut out, k, &x, &y, &z, f32m, "structured:one-coordinate-sweep");
+                }
+                check_minkowski_special(&mut out, &x, &y, f32m);
+            }
         }
     }
     let stats: std::collections::BTreeMap<String, f64> = STATS.with(|s| s.borrow().clone());
